@@ -622,6 +622,50 @@ theorem shared_supply_refines (m : Matrix α) (h : m.Inv) (steps : List (Bool ×
 example : (⟨[1, 2, 3, 4], 2, 2⟩ : Matrix Nat).sharedInserts [(true, 1), (false, 0)] [5, 6, 7, 8, 9, 10] =
     (⟨[7, 1, 2, 8, 5, 6, 9, 3, 4], 3, 3⟩, [false, false], [10]) := by decide
 
+/-- **Conversion to a tensor** (`into_tensor`, `TryFrom<(Matrix, [Dimension; 2])>`): for a matrix
+    satisfying the invariant it never panics; with two different names it yields the tensor of
+    shape `[(row name, rows), (column name, columns)]` whose data is the row-major concatenation of
+    the list of rows; with equal names it is `Err`. -/
+theorem intoTensor_refines {ν : Type} [DecidableEq ν] (m : Matrix α) (h : m.Inv) (rn cn : ν) :
+    (rn ≠ cn → ∃ t, m.intoTensorRows rn cn = .ok (some t) ∧ t.data = (abs m).flatten ∧
+      t.shape = [(rn, Rows.nrows (abs m)), (cn, Rows.ncols (abs m))]) ∧
+    (rn = cn → m.intoTensorRows rn cn = .ok none) := by
+  have hn : Rows.nrows (abs m) = m.rows := length_toRows m
+  have hc : Rows.ncols (abs m) = m.columns := ncols_toRows m h
+  constructor
+  · intro hne
+    have hdup : hasDuplicates [rn, cn] = false := by
+      simp [hasDuplicates]; exact hne
+    have hr : (m.rows == 0) = false := by have := h.2.1; simp; omega
+    have hcl : (m.columns == 0) = false := by have := h.2.2; simp; omega
+    have hel : elements [(rn, m.rows), (cn, m.columns)] = m.rows * m.columns := by
+      simp [elements, prod]
+    refine ⟨⟨m.data, [(rn, m.rows), (cn, m.columns)], computeStrides [(rn, m.rows), (cn, m.columns)]⟩,
+      ?_, (flatten_toRows m h).symm, by rw [hn, hc]⟩
+    simp [Matrix.intoTensorRows, Tensor.tryFrom, validateDimensions, hdup, hr, hcl, hel, h.1]
+  · intro he
+    subst he
+    simp [Matrix.intoTensorRows, hasDuplicates]
+
+/-- **Writes through `MatrixMut::try_get_reference_mut`** never panic: inside the matrix they are
+    `set`, outside they return `None` and change nothing. -/
+theorem trySet_refines (m : Matrix α) (h : m.Inv) (r c : Nat) (v : α) :
+    (Rows.pre (abs m) (.set r c v) = true →
+      m.trySet r c v = some (m.exec (.set r c v)).state) ∧
+    (Rows.pre (abs m) (.set r c v) = false → m.trySet r c v = none) := by
+  have hn : Rows.nrows (abs m) = m.rows := length_toRows m
+  have hc : Rows.ncols (abs m) = m.columns := ncols_toRows m h
+  simp only [Rows.pre, hn, hc, Bool.and_eq_true, decide_eq_true_eq, Bool.and_eq_false_iff,
+    decide_eq_false_iff_not]
+  constructor
+  · intro hp
+    have hidx : m.getIndex r c < m.data.length := by
+      unfold Matrix.getIndex; rw [h.1]; exact getIndex_lt hp.1 hp.2
+    simp [Matrix.trySet, Matrix.exec, Matrix.set, hp.1, hp.2, hidx]
+  · intro hp
+    have : ¬ (r < m.rows ∧ c < m.columns) := by omega
+    simp [Matrix.trySet, this]
+
 /-! ### the list-of-rows operations are the obvious ones -/
 
 /-- transposition of a well-formed list of rows exchanges the coordinates of every cell -/
